@@ -1,6 +1,6 @@
 PROP = {'modules': ['Discv5Model.Props.C10', 'Discv5Model.Props.C09Service', 'Discv5Model.Props.C10Service', 'Discv5Model.Props.C10Candidates'],
  'lemma_modules': ['Discv5Model.Proofs.QueryLemmas', 'Discv5Model.Proofs.LookupLemmas', 'Discv5Model.Proofs.LookupLedger', 'Discv5Model.Proofs.LookupResult', 'Discv5Model.Proofs.ServiceDiscovered'],
- 'engines': [{'name': 'query', 'quick': 1000, 'thorough': 50000}, {'name': 'service', 'quick': 80, 'thorough': 4000}],
+ 'engines': [{'name': 'query', 'quick': 1000, 'thorough': 50000}, {'name': 'service', 'quick': 80, 'thorough': 4000}, {'name': 'service', 'quick': 24, 'thorough': 400, 'model': False, 'profile': 'C10shared'}],
  'rule': 'query engine (cases shared with C09, see there): FindNodeQuery / PredicateQuery driven directly with explicit time in a contract and an adversarial '
          'mode, plus QueryPool cases; into_result (and for FindNodeQuery a peek at the result of a clone in mid-run) is compared with the model and checked '
          'against the harness ledger (answered peers, reported predicate values, candidates certainly learned). non-trivial = single-query case that reached '
@@ -27,3 +27,4 @@ PROP = {'modules': ['Discv5Model.Props.C10', 'Discv5Model.Props.C09Service', 'Di
                'answered it (result_nodes_answered).',
  'level_note': 'Trusted: Lean kernel, harness/driver. The tie model<->code is a sampled differential check, not a proof.'}
 PROP['rule'] += ' Records at addresses nothing is delivered to (0.0.0.0, multicast) appear in answers; monitor lookup-short-although-a-node-it-learned-of-was-never-asked over the candidates a lookup certainly learned from its answers; lookups for 10^6 and usize::MAX results.'
+PROP['rule'] += " Monitors-only profile C10shared (service engine): two lookups at once are both told of one and the same stranger (requests are attributed to a lookup by the step that caused them); one lookup is brought to its end, then the other; both end short, so both must have sent the stranger their request."
